@@ -71,6 +71,19 @@ def iter_direction(prog):
     over = any(x[0] == "f" and x[3] == "buffer" for x in T.walk(r))
     extra = [c for c in calls if c not in ("slice::iter", "core::iter::traits::iterator::Iterator::flatten",
                                            "core::iter::traits::iterator::Iterator::rev")]
+    # a sliced walk `buffer[..L]`: L must be the index of the first free slot or the capacity, nothing smaller
+    sliced = [x for x in T.walk(r) if x[0] == "call" and x[1].endswith("::index") and len(x[2]) == 2]
+    if sliced and over:
+        rng = T.strip_refs(sliced[0][2][1])
+        if rng[0] == "agg" and "RangeTo::RangeTo" in rng[1]:
+            L = rng[2][0]
+            if L[0] == "call" and L[1] == "core::option::Option::unwrap_or" and L[2][0][0] == "call" and L[2][0][1].endswith("::position"):
+                d = T.strip_casts(L[2][1])
+                full = d[0] == "k" or (d[0] == "call" and d[1] == "slice::len")
+                if not full:
+                    return "cut", "walks buffer[..len] with len defaulting to %s instead of the capacity: the last slot of a full buffer is never visited" % T.show(d)[:40]
+                extra = [c for c in extra if not c.endswith("::index") and not c.endswith("::position") and c != "core::option::Option::unwrap_or"
+                         and not c.endswith("is_none")]
     if not over or extra or "slice::iter" not in calls:
         return None, "unrecognised: " + T.show(r)[:120]
     return ("rev" if any(c.endswith("Iterator::rev") for c in calls) else "fwd"), T.show(r)[:120]
@@ -152,7 +165,10 @@ def r_best_first(rep, prog):
     rep.check(True, rule, "add|comparator", ("insertion point found with `%s` (%s storage)" % (sdesc, "ascending" if sd == "asc" else "descending"))
               if sd else "undecided: " + sdesc, "", sspan)
     idir, idesc = iter_direction(prog)
-    if idir is None:
+    if idir == "cut":
+        rep.violation(rule, "iter|whole-buffer", "SortedBuffer::iter " + idesc, lib.need_body(prog, ITER).span)
+        idir = None
+    elif idir is None:
         rep.note("R-BEST-FIRST direction agreement undecided: cannot read the direction of SortedBuffer::iter (%s)" % idesc)
     rep.check(True, rule, "iter|direction", ("SortedBuffer::iter walks the array %s" % ("forwards" if idir == "fwd" else "backwards"))
               if idir else "undecided: " + idesc)
